@@ -17,6 +17,7 @@
  * instant) must not be able to mask a different clause.  Every failing case is still counted in a STAT.
  */
 #include "bee.h"
+#include <pthread.h>
 #include <aws/common/byte_buf.h>
 #include <aws/common/date_time.h>
 #include <aws/common/error.h>
@@ -807,6 +808,66 @@ static void sb_eval(uint64_t idx, void *ctx) {
     free(out);
 }
 
+/* ------------------------------------------------------------------------------------------------------------
+ * section otherthread: the text is produced on one thread and parsed on another.  A date string means the same instant
+ * whichever thread reads it - also a thread that was created after some other thread has already parsed dates (added after
+ * a seeded change that made the parser's lazily built month / zone keys thread-local but initialised them under a
+ * process-wide once-flag: only the first parsing thread could read RFC 822 any more)
+ * ---------------------------------------------------------------------------------------------------------- */
+struct ot_job {
+    char text[NKINDS][AWS_DATE_TIME_STR_MAX_LEN + 1];
+    size_t len[NKINDS];
+    int rc[NKINDS][2]; /* explicit format, auto-detect */
+    int64_t got[NKINDS][2];
+};
+static void *ot_thread(void *p) {
+    struct ot_job *j = (struct ot_job *)p;
+    for (int kind = 0; kind < NKINDS; ++kind)
+        for (int mode = 0; mode < 2; ++mode) {
+            struct aws_date_time d;
+            memset(&d, 0, sizeof(d));
+            struct aws_byte_cursor c = aws_byte_cursor_from_array(j->text[kind], j->len[kind]);
+            j->rc[kind][mode] = aws_date_time_init_from_str_cursor(&d, &c, mode ? AWS_DATE_FORMAT_AUTO_DETECT : kind_fmt[kind]);
+            j->got[kind][mode] = j->rc[kind][mode] == AWS_OP_SUCCESS ? (int64_t)aws_date_time_as_epoch_secs(&d) : -1;
+        }
+    return NULL;
+}
+static uint64_t ot_total(void) { return 400; }
+static void ot_eval(uint64_t idx, void *ctx) {
+    (void)ctx;
+    BEE_ITEM(idx);
+    int64_t t = rt_instant(idx * 37 + 5);
+    struct ot_job j;
+    memset(&j, 0, sizeof(j));
+    struct aws_date_time d;
+    memset(&d, 0, sizeof(d));
+    aws_date_time_init_epoch_secs(&d, (double)t);
+    for (int kind = 0; kind < NKINDS; ++kind) {
+        struct aws_byte_buf ob = aws_byte_buf_from_empty_array(j.text[kind], AWS_DATE_TIME_STR_MAX_LEN);
+        int rc = kind_short[kind] ? aws_date_time_to_utc_time_short_str(&d, kind_fmt[kind], &ob) : aws_date_time_to_utc_time_str(&d, kind_fmt[kind], &ob);
+        j.len[kind] = rc == AWS_OP_SUCCESS ? ob.len : 0;
+    }
+    /* this thread parses first (whatever is initialised lazily is initialised here) ... */
+    struct ot_job here = j;
+    ot_thread(&here);
+    /* ... then a thread created afterwards parses the same texts */
+    pthread_t th;
+    if (pthread_create(&th, NULL, ot_thread, &j) != 0) _exit(2);
+    pthread_join(th, NULL);
+    g_case.mode = 0;
+    g_case.how = "parse on another thread";
+    g_case.t = t;
+    g_case.ms = 0;
+    for (int kind = 0; kind < NKINDS; ++kind)
+        for (int mode = 0; mode < 2; ++mode) {
+            V_COUNT("evaluations", 1);
+            V_COUNT("nontrivial", 1);
+            CHECK(j.rc[kind][mode] == here.rc[kind][mode] && j.got[kind][mode] == here.got[kind][mode], CL("other-thread-reads-differently:%s", kind_name[kind]),
+                  "\"%s\" (%s%s): the formatting thread reads it as rc=%d instant %" PRId64 ", a thread created afterwards as rc=%d instant %" PRId64, j.text[kind], kind_name[kind],
+                  mode ? ", auto-detect" : "", here.rc[kind][mode], here.got[kind][mode], j.rc[kind][mode], j.got[kind][mode]);
+        }
+}
+
 int main(int argc, char **argv) {
     v_init(argc, argv);
     if (!calendar_selfcheck()) {
@@ -821,5 +882,6 @@ int main(int argc, char **argv) {
     bee_register("roundtrip", rt_total, rt_eval, 20);
     bee_register("variants", var_total, var_eval, 20);
     bee_register("shortbuf", sb_total, sb_eval, 20);
+    bee_register("otherthread", ot_total, ot_eval, 20);
     return bee_main(argc, argv);
 }
